@@ -10,6 +10,7 @@ concurrently, each with its own content evaluation result in context-local stora
 
 import asyncio
 import itertools
+import re
 from contextvars import ContextVar
 
 from hypothesis import strategies as st
@@ -20,7 +21,7 @@ from vlib.core import Stage, fail
 ID = "C12"
 MANIFEST = {
     "category": "exploration",
-    "text": "Schedule exploration by generated-input search: (single) AHB expressions with several modal-mark parts, repeated keys, hints, format constraints and packages occurring several times x content evaluation results x a schedule (list of yield counts consumed call by call by the harness's async RcEvaluator / FcEvaluator methods, HintsProvider and PackageResolver; every third rc method is a plain function). The results of evaluate_ahb_expression_tree (incl. package expansion), requirement_constraint_evaluation and format_constraint_evaluation under the schedule must equal the results under the all-zero schedule and the reference evaluator's selection/outcome; the expanded tree must equal the zero-schedule tree. (concurrent) 2-5 jobs - AHB evaluations and is_valid_expression calls - run as concurrent tasks with yielding ContentEvaluationResult-based evaluators - or a method-based RcEvaluator whose evaluate_<key> coroutines derive their answer from the evaluatable data they are handed - that read the job's own result from a ContextVar; every job must equal its run alone. In a third of the concurrent cases every call of a user-supplied component first awaits one request in flight that all calls of the run share (unshielded, as user code does), and a quarter of the evaluation jobs lack the answer for one of their keys and fail with NotImplementedError while their other parts are still suspended: the healthy jobs next to them must not notice. For is_valid_expression jobs on expressions with 1-3 requirement constraints the harness records which evaluatable data the evaluations of the call were served: exactly the 3^m possible states, each evaluation its own. A third of the concurrent cases use a HintsProvider whose get_hint_text is a plain function reading the job's context-local data. Half of the is_valid_expression jobs go on to evaluate their expression in the same task; the outcome is judged by the reference and compared between the solo and the concurrent run. Stage failures: one requirement constraint method raises after its pauses and a hint text is missing; the error that reaches the caller must be the one of the zero schedule. The single stage also calls RcEvaluator.evaluate_conditions directly with evaluation contexts for half of the keys: every key must get its value, a key with a context must be evaluated in that context, the others in the default one. For every second schedule the package resolver's get_condition_expression is a plain function that returns the task of a look-up already under way (ahbicht awaits whatever it returns).",
+    "text": "Schedule exploration by generated-input search: (single) AHB expressions with several modal-mark parts, repeated keys, hints, format constraints and packages occurring several times x content evaluation results x a schedule (list of yield counts consumed call by call by the harness's async RcEvaluator / FcEvaluator methods, HintsProvider and PackageResolver; every third rc method is a plain function). The results of evaluate_ahb_expression_tree (incl. package expansion), requirement_constraint_evaluation and format_constraint_evaluation under the schedule must equal the results under the all-zero schedule and the reference evaluator's selection/outcome; the expanded tree must equal the zero-schedule tree. (concurrent) 2-5 jobs - AHB evaluations and is_valid_expression calls - run as concurrent tasks with yielding ContentEvaluationResult-based evaluators - or a method-based RcEvaluator whose evaluate_<key> coroutines derive their answer from the evaluatable data they are handed - that read the job's own result from a ContextVar; every job must equal its run alone. In a third of the concurrent cases every call of a user-supplied component first awaits one request in flight that all calls of the run share (unshielded, as user code does), and a quarter of the evaluation jobs lack the answer for one of their keys and fail with NotImplementedError while their other parts are still suspended: the healthy jobs next to them must not notice. For is_valid_expression jobs on expressions with 1-3 requirement constraints the harness records which evaluatable data the evaluations of the call were served: exactly the 3^m possible states, each evaluation its own. A third of the concurrent cases use a HintsProvider whose get_hint_text is a plain function reading the job's context-local data. Half of the is_valid_expression jobs go on to evaluate their expression in the same task; the outcome is judged by the reference and compared between the solo and the concurrent run. Stage failures: one requirement constraint method raises after its pauses and a hint text is missing; the error that reaches the caller must be the one of the zero schedule. The single stage also calls RcEvaluator.evaluate_conditions directly with evaluation contexts for half of the keys: every key must get its value, a key with a context must be evaluated in that context, the others in the default one. For every second schedule the package resolver's get_condition_expression is a plain function that returns the task of a look-up already under way (ahbicht awaits whatever it returns). Stage package-failures: expressions with 2-4 packages of which exactly one is unknown, resolved by a suspending resolver: the same NotImplementedError as when nothing yields.",
     "note": "Trusted: the schedule harness (vlib/sched.py), the reference evaluator, attrs equality of result objects. Delays enumerate completion orders among already started awaitables of one single-threaded event loop; threads are out of scope. Process configuration by shard (vlib/sut.py; recorded in replay files): plain / parse caches preheated beyond their size / warnings attributed to ahbicht raised as errors / logging fully enabled with every record rendered; one event loop per process or a new one per call; five process time zones; the hash seed is the shard number; namesakes of ahbicht's marshmallow schema classes are registered. Every registry of evaluators / providers / resolvers that the harness builds (sut.configure) also holds one of each kind that names no EDIFACT format and no format version; these must never be asked.",
     "technique": "property-based schedule exploration (harness-controlled yield counts) with differential (zero schedule) and reference oracles",
 }
@@ -159,6 +160,46 @@ def strategy_failures(tier):  # pylint:disable=unused-argument
         cer = draw(vtree.g_cer(weights="FFU"))
         return {"s": gen.render(draw, ast, redundant=False), "cer": cer, "failing_rc": [draw(st.sampled_from(rc_keys))],
                 "missing_hints": draw(st.sampled_from([[], [hint_keys[0]], list(hint_keys)])), "delays": _delays(draw, 12)}
+
+    return build()
+
+
+def check_package_failures(case):
+    """
+    One of several packages of an expression is unknown to a resolver that really suspends: the resolution fails with
+    the same error (NotImplementedError naming that package) whatever the order in which the look-ups complete.
+    """
+    api = evalhelp.api()
+    outcomes = []
+    for delays in ([], case["delays"]):
+        schedule = sched.Schedule(delays)
+        sut.configure(sched.make_providers(schedule, packages=case["table"]))
+        res = sut.call(api.resolve, case["s"], True, True)
+        # (the message names the resolver object; its address is no part of the outcome)
+        outcomes.append((re.sub(r" at 0x[0-9a-fA-F]+", "", f"raised {res.type}: {res.exc}")[:200] if not res.ok else "returned a tree"))
+    if outcomes[0] != outcomes[1]:
+        fail("schedule-dependent", f"resolving {case['s']!r} with packages {case['table']} (one of them unknown): {outcomes[1]} under "
+             f"schedule {case['delays']}, but {outcomes[0]} when nothing yields")  # fmt: skip
+    if not outcomes[0].startswith("raised NotImplementedError"):
+        fail("unknown-package", f"resolving {case['s']!r} with packages {case['table']}: {outcomes[0]}")
+    return {}
+
+
+def strategy_package_failures(tier):  # pylint:disable=unused-argument
+    @st.composite
+    def build(draw):
+        keys = draw(st.lists(st.sampled_from(["1P", "2P", "3P", "10P"]), min_size=2, max_size=4, unique=True))
+        unknown = draw(st.sampled_from(keys))
+        table = {key: (None if key == unknown else draw(st.sampled_from(["[1]", "[2] U [901]", "[1] O [2]"]))) for key in keys}
+        atoms = [["pkg", key, None] for key in keys] + ([["rc", "1"]] if draw(st.booleans()) else [])
+        atoms = list(draw(st.permutations(atoms)))
+        ast = [draw(st.sampled_from(["and", "or"])), atoms[:2]]
+        for atom in atoms[2:]:
+            ast = [draw(st.sampled_from(["and", "or", "xor"])), [ast, atom] if draw(st.booleans()) else [atom, ast]]
+        text = gen.render(draw, ast, redundant=False)
+        if draw(st.booleans()):
+            text = f"{draw(gen.indicator_text(gen.MODAL_WORDS))} {text} "
+        return {"s": text, "table": table, "unknown": unknown, "delays": _delays(draw, 12)}
 
     return build()
 
@@ -496,6 +537,10 @@ STAGES = [
           classify=lambda c, i: (["missing-hints=" + str(len(c["missing_hints"]))], bool(c["missing_hints"]) and any(c["delays"])),
           budget={"quick": 60, "thorough": 600}, key=lambda c: [c["s"], c["failing_rc"], c["missing_hints"], c["delays"]],
           sample=lambda c: {"s": c["s"], "failing": c["failing_rc"], "missing_hints": c["missing_hints"], "delays": c["delays"]}),
+    Stage(name="package-failures", kind="hyp", check=check_package_failures, strategy=strategy_package_failures,
+          classify=lambda c, i: ([f"packages={len(c['table'])}"], any(c["delays"])),
+          budget={"quick": 40, "thorough": 400}, key=lambda c: [c["s"], c["table"], c["delays"]],
+          sample=lambda c: {"s": c["s"], "table": c["table"], "delays": c["delays"]}),
     Stage(name="concurrent", kind="hyp", check=check_concurrent, classify=classify_concurrent, strategy=strategy_concurrent,
           budget={"quick": 100, "thorough": 1500},
           floors={"jobs-interleaved": 0.4, "with-validity-check": 0.2, "a-job-fails-next-to-healthy-ones-sharing-a-request": 0.1},
